@@ -3,6 +3,7 @@ handles, unbuffered and inside signac.buffered(); the file on disk equals the mo
 import copy
 import contextlib
 import json
+import os
 import random
 
 from .common import Budget, project_scratch, script_header
@@ -101,12 +102,16 @@ def scenario(seed, buffered_mode):
 
         mems = {id(t[1]): {} for t in targets}      # what the long-lived handle (obj.document) may still hold in memory
 
+        def spelled(path):
+            # the same directory, spelled differently by the caller
+            return rnd.choice([path, path + os.sep, os.path.join(path, "."), os.path.join(os.path.dirname(path), ".", os.path.basename(path)), path.replace(os.sep, os.sep * 2, 1)])
+
         def handle(kind, obj):
             how = rnd.choice(["same", "fresh"])
             handle.last_same = how == "same"
             if kind == "project":
-                return (obj if how == "same" else signac.Project(obj.path)).document
-            return (obj if how == "same" else signac.Project(p.path).open_job(id=obj.id)).document
+                return (obj if how == "same" else signac.Project(spelled(obj.path))).document
+            return (obj if how == "same" else signac.Project(spelled(p.path)).open_job(id=obj.id)).document
 
         def steps(n, inside_buffer):
             for _ in range(n):
